@@ -326,6 +326,8 @@ def opSEQ (args obs : List String) : Option DecOut := do
               (if res == "ok" && wire != e then ["C09 success although the connection did not accept the whole encoding",
                 "C08 a send reported success but its message is not on the wire whole and exactly once",
                 "C07 what a successful send put on the wire is not the encoding of its message: another send (an earlier, failed one) altered it"] else []) ++
+              (if e.isPrefixOf wire && wire != e && !e.isEmpty then
+                 ["C08 the bytes of this send's message went to the connection more than once: a message is delivered exactly once per send, also when the ack is late"] else []) ++
               (if wire.isPrefixOf e then [] else ["C09 accepted bytes are not a prefix of the encoding",
                 "C07 the bytes a send put on the wire are not (a prefix of) its own message's encoding: something left over from another send went out with it"]) ++
               (if !allWritesOk evs && res == "ok" then ["C09 a failed or short write was reported as success"] else [])
@@ -390,6 +392,8 @@ def opSEQ (args obs : List String) : Option DecOut := do
             let sessAlive := sess.isSome
             (if goOk && !(proof && sessAlive) then ["C05 handshake succeeded without a PONG carrying auth_result=true and the digest for this salt/nonce/key",
                 "C10 peer bytes left the client in transport phase without a valid handshake"] else []) ++
+            (if (kvGet "saltrepeat" xs) == some "t" then
+               ["C05 the salt of this PING was already used by an earlier handshake of this run: a peer that recorded that handshake can replay its PONG without knowing the key"] else []) ++
             (if goOk && key.isSome && (kvGet "peerknows" xs) == some "f" then
                [s!"C05 a peer that does not know the key was accepted (peer behaviour: {(kvGet "mode" xs).getD "?"})"] else []) ++
             (if !goOk && proof && sessAlive && allWritesOk evs && !writes.isEmpty && (match parse pong with | some (_, []) => true | _ => false) then ["C05 a valid PONG was rejected"] else []) ++
@@ -404,7 +408,11 @@ def opSEQ (args obs : List String) : Option DecOut := do
         let dirty' :=
           if opName == "SND" then
             let r := ((kvGet "resp" xs).bind parseHex).getD []
-            if r.isEmpty || conformingAck r || acc.dirty.contains connId then acc.dirty else connId :: acc.dirty
+            -- a peer that answers after the deadline leaves its ack on the connection for the next reader: from then on
+            -- sends on this connection are judged on the byte stream as it stands
+            let late := match opT with | .node "SND" [_, .atom m, _] => m.startsWith "late" | _ => false
+            if late && !(acc.dirty.contains connId) then connId :: acc.dirty
+            else if r.isEmpty || conformingAck r || acc.dirty.contains connId then acc.dirty else connId :: acc.dirty
           else if opName == "HS" then
             -- anything but an honest standard handshake may leave part of the peer's bytes unread
             let honest := match opT with | .node "HS" [.atom "std", .atom "honest", _] => res == "ok" | _ => false
